@@ -242,6 +242,9 @@ class ClassParser(BaseParser):
             alias_map.update(parser.field_alias_map)
             attr_alias_map.update(parser.attr_alias_map)
             case_insensitive_names.update(parser.case_insensitive_names)
+            # inherited fields may still hold unresolved forward references (the base was never parsed yet):
+            # they have to be resolved at the first parse of this class as well
+            self.forward_refs.update(parser.forward_refs)
 
         # cls_options = self.options  # add current cls options
         # if cls_options:
